@@ -724,16 +724,26 @@ func EvalFunction(env *Zlisp, name string, args []Sexp) (Sexp, error) {
 	orig := &SexpArray{Val: args}
 	sfun := env.MakeFunction("evalGeneratedFunction", 0, false, newfunc, orig)
 
+	// as in Apply: the caller may be the eval builtin inside a running
+	// program or the host with an idle interpreter. Run stops when the
+	// generated function returns, and the caller's function, program
+	// counter and stacks are put back, also when the evaluation fails.
+	callState := env.captureControlState()
+	env.pc = -2
 	err = env.CallFunction(sfun, 0)
 	if err != nil {
+		env.restoreControlState(callState)
 		return SexpNull, err
 	}
 
 	var resultSexp Sexp
 	resultSexp, err = env.Run()
 	if err != nil {
+		env.restoreControlState(callState)
 		return SexpNull, err
 	}
+	env.curfunc = callState.curfunc
+	env.pc = callState.pc
 
 	// some sanity checks
 	if env.datastack.Size() > startingDataStackSize {
